@@ -11,6 +11,9 @@ buffers around the window for every call (harness oracles in release and debug p
 import MinizProof.Props.C05
 import MinizProof.Lemmas.CoreCall
 import MinizProof.Lemmas.VecLoops
+import MinizProof.Lemmas.CoreFull
+import MinizProof.Lemmas.SpecFuel
+import MinizProof.Props.C07
 namespace C08
 
 /-- End of the window, for all `len, pos ≤ len, budget` below 2^64 (symbolic). -/
@@ -89,6 +92,92 @@ theorem driver_loop_progress (r : Regs) (inp out : Array UInt8) (outPos budget f
   rcases hs with hs | hs
   · have := h.nmi (Or.inl hs); omega
   · have := h.hmo hs; omega
+
+/-! ### A valid stream in every window: `Done` iff it fits, "has more output" iff it does not
+
+With the refinement (C03: fits ⇒ `Done`) and the converse (C04: `Done` ⇒ accepted and fits) the
+theorems below close the case left open: a stream the reference decoder accepts whose plaintext does
+NOT fit the granted window is reported as "has more output" (`Lemmas/CoreFull`: the run is carried
+over the accepted tokens and blocks for as long as they fit; the first literal, match or stored byte
+run that does not fit fills the window and stops there). So the status a caller sees for a valid
+stream is decided by the window alone, and a limited call never fails, never claims completion, and
+hands out a prefix of the plaintext. -/
+open Model.Core in
+/-- VALID BUT TOO BIG: "has more output", the window completely filled. -/
+theorem valid_stream_too_big_is_has_more_output (r : Regs) (inp out : Array UInt8) (outPos budget flags maxDist : Nat)
+    (res : Spec.Inflated) (hstart : r.state = sStart)
+    (hshape : r.rawHeader.size = 4 ∧ r.tableSizes.size = 3 ∧ r.lenCodes.size = 512)
+    (hflat : hasFlag flags fNonWrapping = true) (hz : hasFlag flags fParseZlib = false)
+    (hstop : hasFlag flags fStopOnBlockBoundary = false) (hpos : outPos ≤ out.size)
+    (hspec : Spec.inflateSpec (out.extract 0 outPos) maxDist inp 0 = .accept res)
+    (hbig : min (outPos + budget) out.size < outPos + res.out.size) :
+    (decompress r inp out outPos budget flags).status = stHasMoreOutput ∧
+    (decompress r inp out outPos budget flags).written = min budget (out.size - outPos) := by
+  have h := full_raw_flat r inp out outPos budget flags maxDist res hstart hshape hflat hz hstop hpos hspec hbig
+  exact ⟨h, has_more_output_means_full r inp out outPos budget flags h⟩
+
+open Model.Core in
+/-- THE STATUS OF A VALID STREAM IS DECIDED BY THE WINDOW: `Done` exactly when the plaintext fits,
+    "has more output" exactly when it does not; nothing else is ever reported. -/
+theorem valid_stream_status_is_decided_by_the_window (r : Regs) (inp out : Array UInt8) (outPos budget flags : Nat)
+    (res : Spec.Inflated) (hstart : r.state = sStart)
+    (hshape : r.rawHeader.size = 4 ∧ r.tableSizes.size = 3 ∧ r.lenCodes.size = 512)
+    (hflat : hasFlag flags fNonWrapping = true) (hz : hasFlag flags fParseZlib = false)
+    (hstop : hasFlag flags fStopOnBlockBoundary = false) (hpos : outPos ≤ out.size)
+    (hspec : Spec.inflateSpec (out.extract 0 outPos) 32768 inp 0 = .accept res) :
+    ((decompress r inp out outPos budget flags).status = stDone ↔
+      outPos + res.out.size ≤ min (outPos + budget) out.size) ∧
+    ((decompress r inp out outPos budget flags).status = stHasMoreOutput ↔
+      min (outPos + budget) out.size < outPos + res.out.size) ∧
+    ((decompress r inp out outPos budget flags).status = stDone ∨
+      (decompress r inp out outPos budget flags).status = stHasMoreOutput) := by
+  by_cases hfit : outPos + res.out.size ≤ min (outPos + budget) out.size
+  · have hd := (refine_raw_flat r inp out outPos budget flags 32768 res hstart hshape hflat hz hstop hpos hspec hfit).1
+    refine ⟨⟨fun _ => hfit, fun _ => hd⟩, ⟨fun h => ?_, fun h => by omega⟩, .inl hd⟩
+    rw [hd] at h; exact absurd h (by decide)
+  · have hb : min (outPos + budget) out.size < outPos + res.out.size := by omega
+    have hm := full_raw_flat r inp out outPos budget flags 32768 res hstart hshape hflat hz hstop hpos hspec hb
+    refine ⟨⟨fun h => ?_, fun h => absurd h hfit⟩, ⟨fun _ => hb, fun _ => hm⟩, .inr hm⟩
+    rw [hm] at h; exact absurd h (by decide)
+
+open Model.Core in
+/-- … and what a limited call hands out is a PREFIX of the plaintext (buffer large enough for all of
+    it, budget too small): with the C07 call composition — the limited call followed by a call with
+    the remaining budget is the single call with all the budget, and the second call does not touch
+    what the first wrote. -/
+theorem limited_output_is_a_prefix_of_the_plaintext (r : Regs) (inp out : Array UInt8) (outPos budget flags maxDist : Nat)
+    (res : Spec.Inflated) (hb : Bnd r) (hstart : r.state = sStart)
+    (hshape : r.rawHeader.size = 4 ∧ r.tableSizes.size = 3 ∧ r.lenCodes.size = 512)
+    (hflat : hasFlag flags fNonWrapping = true) (hz : hasFlag flags fParseZlib = false)
+    (hstop : hasFlag flags fStopOnBlockBoundary = false)
+    (hspec : Spec.inflateSpec (out.extract 0 outPos) maxDist inp 0 = .accept res)
+    (hsize : outPos + res.out.size ≤ out.size) (hsmall : budget < res.out.size) :
+    (decompress r inp out outPos budget flags).status = stHasMoreOutput ∧
+    (decompress r inp out outPos budget flags).written = budget ∧
+    ∀ i, i < budget → (decompress r inp out outPos budget flags).out[outPos + i]? = res.out[i]? := by
+  have hpos : outPos ≤ out.size := by omega
+  have hg : badGeometry flags out.size outPos = false := by
+    unfold badGeometry; simp [hflat]; omega
+  obtain ⟨h1, h2⟩ := valid_stream_too_big_is_has_more_output r inp out outPos budget flags maxDist res hstart hshape hflat hz hstop
+    hpos hspec (by omega)
+  have hw : (decompress r inp out outPos budget flags).written = budget := by rw [h2]; omega
+  refine ⟨h1, hw, fun i hi => ?_⟩
+  -- second call with the rest of the budget
+  have hcomp := C07.two_calls_equal_one_call r inp #[] out outPos budget (res.out.size - budget) flags hb hg (.inr h1)
+    (by rw [hw]; omega)
+  simp only at hcomp
+  obtain ⟨_, hout, _, _, _, _, _⟩ := hcomp
+  rw [hw, Array.append_empty] at hout
+  have hone := refine_raw_flat r inp out outPos (budget + (res.out.size - budget)) flags maxDist res hstart hshape hflat hz hstop hpos
+    hspec (by omega)
+  have hbyte := hone.2.2.2 i (by omega)
+  rw [hout] at hbyte
+  -- the second call leaves the first call's bytes alone
+  have hframe := (writes_only_inside_window (decompress r inp out outPos budget flags).r
+    ((inp.extract (decompress r inp out outPos budget flags).consumed inp.size) ++ #[])
+    (decompress r inp out outPos budget flags).out (outPos + budget) (res.out.size - budget) flags).2.2.2 (outPos + i) (.inl (by omega))
+  rw [← hframe]
+  exact hbyte
 
 /-! ### The size-limited vector functions (`Model.Vec.decompressToVec`, tied by the VECI correspondence) -/
 /-- `decompress_to_vec*_with_limit` never returns more than the limit — neither as a result nor as
